@@ -9,8 +9,8 @@ from ..cfg import CFG
 from ..core import AnalysisError, const_value
 from ..defuse import DefUse, Terms, show, walk_term
 from ..defuse import key as tkey
-from ..tutil import (base_of, bound_args, callee_of, norm_calls, np_call,
-                     strip_conv)
+from ..tutil import (base_of, bound_args, callee_of, lin, norm_calls,
+                     np_call, strip_conv, subst_params)
 
 EXPLANATION = (
     "Static analysis of brew.make_train_sets, brew.brew, brew._predict, "
@@ -631,11 +631,33 @@ def _split(ctx, f):
                 _hash_key(ctx, f, hash_t, rnode)
     ctx.floor("C02c-np-split", n_split, 1)
     # folds - 1 cut points
-    loops = [n for n in ast.walk(f.node) if isinstance(n, ast.For)
-             and ast.unparse(n.iter) == f"range({p_folds} - 1)"]
-    ctx.check(len(loops) == 1, "C02c-fold-count", f,
+    # every range whose length depends on the number of folds - in this
+    # function or in the helpers it gets its cut points from - must have
+    # folds - 1 elements
+    want = lin(("param", p_folds)) + lin(("const", -1))
+    counts = []
+    funcs = [(f, {})]
+    for n in ast.walk(f.node):
+        if isinstance(n, ast.Call):
+            t = T.of(n)
+            if t[0] == "call" and t[1] in prog.funcs and \
+                    prog.funcs[t[1]].module is f.module and any(
+                        x == ("param", p_folds) for x in walk_term(t)):
+                funcs.append((prog.funcs[t[1]], bound_args(prog, t) or {}))
+    for g, b in funcs:
+        gT = T if g is f else Terms(DefUse(prog, g))
+        for n in ast.walk(g.node):
+            if isinstance(n, ast.Call) and isinstance(
+                    n.func, ast.Name) and n.func.id == "range":
+                rt = subst_params(gT.of(n), b)
+                if rt[0] == "call" and len(rt[2]) == 1 and any(
+                        x == ("param", p_folds) for x in walk_term(rt)):
+                    counts.append(lin(rt[2][0]))
+    ctx.require(counts, f"{f.qual}: no range over the number of folds "
+                "found; rule C02c needs re-reading")
+    ctx.check(all(c == want for c in counts), "C02c-fold-count", f,
               "folds - 1 cut points give exactly the requested number of "
-              "folds", "loop over range(folds - 1) not found",
+              "folds", f"cut points are counted by {counts!r}",
               node=f.node)
 
 
@@ -662,6 +684,14 @@ def _hash_key(ctx, f, hash_t, node):
     why = show(hash_t, 160)
     if c and c[0] == "apply_along_axis" and c[1]:
         lam = c[1][0]
+        if lam[0] in ("name", "free") and lam[1] in ctx.prog.funcs:
+            # a named (nested) function instead of a lambda
+            hf = ctx.prog.funcs[lam[1]]
+            hr = Terms(DefUse(ctx.prog, hf)).returns()
+            hp = [p_ for p_ in hf.params if p_ != "self"]
+            if len(hr) == 1 and len(hp) == 1:
+                lam = ("lambda", (hp[0],), subst_params(
+                    hr[0][1], {hp[0]: ("lparam", hp[0])}))
         if lam[0] == "lambda" and len(lam[1]) == 1:
             body = lam[2]
             x = ("lparam", lam[1][0])
